@@ -71,6 +71,7 @@ BATTERIES['Projection'] = [
 ] + [
   ('List.project rows', 'concat (map (fun m => enc_pres enc_m (@M@.List_project [@M@.HyperCube_project cube3; @M@.HyperCube_project cube3b] 0 (2%nat, 3%nat) m)) [m23; m32; m33; []])'),
   ('List.project columns', 'concat (map (fun m => enc_pres enc_m (@M@.List_project [@M@.HyperCube_project cube3; @M@.HyperCube_project cube3b] 1 (3%nat, 2%nat) m)) [m32; m23; m33; []])'),
+  ('Device.project', 'concat (map (fun m => enc_pres enc_m (@M@.Device_project cube3 m) ++ enc_pres enc_m (@M@.Device_project cube3b m)) [[va]; [vb]; [vc]; [v2]; [[1]; [2]; [3]]; []])'),
 ]
 
 TH = '3%%nat (%s) (%s) 5 20 2 [10; -4; 0] (%s)'
@@ -128,6 +129,7 @@ BATTERIES['Functions'] = [
   ('ADevice', 'concat (map (fun x => concat (map (fun p => enc_s (@M@.ADevice_cost (fobjA 1) x p) ++ enc_v (@M@.ADevice_deriv (fobjA 2) x p) ++ enc_m (@M@.ADevice_hess (fobjA (-1)) x p)) [va; vb; [0; 0; 0]])) [va; vb; vc])'),
   ('CDevice2', 'concat (map (fun cbs => concat (map (fun x => enc_s (@M@.CDevice2_cost 3 (-2) (-(1#2)) cbs x vb) ++ enc_v (@M@.CDevice2_deriv 3 (-2) (-(1#2)) cbs x vb) ++ enc_s (f_call (@M@.CDevice2_cost_fn (-1) 0 cbs) x)) [va; vb; vc])) '
                '[[(1, 4, 0%nat, 3%nat)]; [(0, 2, 0%nat, 1%nat); (-1, 3, 1%nat, 3%nat)]; [(0, 1, 0%nat, 1%nat); (1, 2, 1%nat, 2%nat); (-3, 0, 2%nat, 3%nat)]; [(1, 4, 0%nat, 2%nat); (1, 4, 2%nat, 3%nat)]])'),
+  ('DemandFunction', 'concat (map (fun x => concat (map (fun c => enc_s (@M@.DemandFunction_call c x) ++ enc_v (@M@.DemandFunction_deriv c x) ++ enc_m (@M@.DemandFunction_hess c x)) [[1; -2; 3]; [1#2; 0; 0; 1]; [2]; []])) [va; vb; vc; [1; 1; 1]; [5]])'),
 ]
 BND = '[(0, 2); (1, 1); (-1, 3)]'
 BATTERIES['Classes'] = [
